@@ -13,7 +13,7 @@
 (*  - EmitState (an INVARIANT that is always TRUE) prints one JSON line    *)
 (*    per distinct state: its history and its candidate calls.             *)
 (***************************************************************************)
-EXTENDS Scopes, Json
+EXTENDS PropsH, Json
 
 CONSTANTS ScopeName, MaxDepth, Emit
 VARIABLES ir, hist
@@ -52,8 +52,38 @@ NamingScope(pol, extra) ==
        names |-> {"a", "A"}, vals |-> {"a", "A", "1x"}, pos |-> {NoPos}, createN |-> {0},
        lookupVals |-> {"a", "A", "b"}]
 
+(* skeleton of the hierarchy families: leaf d1 (ports p1, p2 of one pin), mid d2 (port p3, cable c1 with  *)
+(* two wires), top definition d3 (port p4, cable c2 with two wires), top instance i1 of d3                *)
+HierInit == << Cnew("N", "n"), Ccreate("NL", 1, "lib", 0), Ccreate("LD", 1, "leaf", 0), Ccreate("LD", 1, "mid", 0),
+               Ccreate("LD", 1, "top", 0),
+               Ccreate("DP", 1, "i", 1), Ccreate("DP", 1, "o", 1),
+               Ccreate("DP", 2, "p", 1), Ccreate("DC", 2, "n", 2),
+               Ccreate("DP", 3, "t", 1), Ccreate("DC", 3, "m", 2),
+               Csettopdef(1, 3) >>
+HierScope(q, extra) ==
+      [init |-> HierInit, ops |-> {"b:child", "b:connect"} \cup extra,
+       max |-> [N |-> 1, L |-> 1, D |-> 3, P |-> 4, C |-> 2, I |-> 5, Q |-> 4, W |-> 4],
+       names |-> {"a", "b", U}, vals |-> {}, pos |-> {NoPos}, createN |-> {0},
+       parents |-> {2, 3}, maxKids |-> 2, queries |-> q, walk |-> FALSE]
+
 ScopeTable ==
-  [ naming |-> NamingScope("DEFAULT", {}),
+  [ hier11 |-> HierScope({"C11"}, {}),
+    hier12 |-> HierScope({"C12"}, {}),
+    hier_walk |-> [HierScope({"walkq"}, {"set_name:I", "set_name:C", "set_name:P", "del_name:I", "set_attr:P",
+                                          "set_attr:C", "remove:DI", "unref", "remove:PQ", "remove:CW",
+                                          "create:PQ", "create:CW"})
+                   EXCEPT !.walk = TRUE, !.max = [N |-> 1, L |-> 1, D |-> 3, P |-> 4, C |-> 2, I |-> 5, Q |-> 6, W |-> 6]],
+    ir_walk |->
+      [init |-> MirrorInit,
+       ops |-> {"add:DP", "create:DP", "create:PQ", "add:PQ", "remove:PQ", "remove:DP", "remove_from:DP",
+                "remove_from:PQ", "set_ref", "create_child", "remove:DI", "add:DI", "set_top_def", "set_top",
+                "new:P", "new:Q", "new:I", "new:W", "connect", "disconnect", "disconnect_from", "reorder_pins",
+                "reorder:PQ", "reorder:DP", "reorder:DI", "create:CW", "add:CW", "remove:CW", "remove_from:CW",
+                "create:DC", "remove:DC", "set_name:P", "set_name:I", "del_name:P", "create_n:PQ", "create_n:CW"},
+       max |-> [N |-> 1, L |-> 1, D |-> 3, P |-> 6, C |-> 2, I |-> 4, Q |-> 8, W |-> 3],
+       names |-> {U, "a", "b"}, vals |-> {}, pos |-> {NoPos, 0, 1}, createN |-> {0, 2}, walk |-> TRUE],
+    hier_edit |-> HierScope({"hcheck"}, {"remove:DI", "unref", "untop", "remove:LD", "remove:NL"}),
+    naming |-> NamingScope("DEFAULT", {}),
     naming_edif |-> NamingScope("EDIF", {}),
     naming_mix |-> NamingScope("DEFAULT", {"set_default", "set_ns:P", "set_ns:D"}),
     conn |->
@@ -100,9 +130,19 @@ ActionProps(pre, c, out, post) ==
     /\ C14_RefusedUnchanged(pre, out, post)
     /\ C10_RefusalExact(pre, c, out)
 
+Queries == IF "queries" \in DOMAIN Scope THEN Scope.queries ELSE {}
+StepCands(s) == Cands(s, Scope) \cup (IF "parents" \in DOMAIN Scope THEN BuildCands(s, Scope) ELSE {})
+QCands(s) ==
+    (IF "C11" \in Queries THEN QueryCandsC11(s) ELSE {})
+    \cup (IF "C12" \in Queries THEN QueryCandsC12(s) ELSE {})
+    \cup (IF "hcheck" \in Queries THEN HCheckCands(s) ELSE {})
+
+Walk == "walk" \in DOMAIN Scope /\ Scope.walk
+NextCands(s) == IF Walk /\ "walkq" \in Queries THEN StepCands(s) \cup WalkQueryCands(s) ELSE StepCands(s)
+
 Init == ir = ApplySeq(Empty, Scope.init) /\ hist = <<>>
-Next == \E c \in Cands(ir, Scope) :
-          LET r == Apply(ir, c) IN
+Next == \E c \in NextCands(ir) :
+          LET r == ApplyX(ir, c) IN
           /\ Assert(ActionProps(ir, c, r.out, r.s), <<"MODEL-VIOLATION action property", c>>)
           /\ ir' = r.s
           /\ hist' = Append(hist, c)
@@ -118,9 +158,10 @@ Inv_C02_OuterPins   == C02_OuterPinMirror(ir)
 Inv_C02_Dropped     == C02_DroppedOffWire(ir)
 Inv_C10_Unique      == C10_Unique(ir)
 Inv_C10_LegalIds    == C10_LegalIds(ir)
+Inv_OracleSane      == (Queries \cap {"C11", "C12"} # {}) => OracleSane(ir)
 
 EmitState ==
-    IF Emit /\ Len(hist) <= MaxDepth THEN PrintT(<<"ST", ToJson([h |-> hist, c |-> Cands(ir, Scope)])>>) ELSE TRUE
+    IF Emit /\ Len(hist) <= MaxDepth THEN PrintT(<<"ST", ToJson([h |-> hist, c |-> (IF Walk THEN {} ELSE IF Queries = {} THEN StepCands(ir) ELSE QCands(ir)), walk |-> Walk, wq |-> ("walkq" \in Queries)])>>) ELSE TRUE
 LookupVals == IF "lookupVals" \in DOMAIN Scope THEN Scope.lookupVals ELSE {}
 EmitInit == PrintT(<<"INIT", ToJson([init |-> Scope.init, lookup |-> LookupVals])>>)
 ASSUME Emit => EmitInit
